@@ -1,5 +1,5 @@
 """
-C23 - RUN, CLEAR and NEW reset state (CHAIN/COMMON not covered here).
+C23 - RUN, CLEAR and NEW reset state; CHAIN keeps exactly the COMMON variables.
 
 Under contract (real source): Interpreter.clear / clear_stacks_and_pointers / _clear_stacks /
 _init_error_trapping (interpreter.py), Implementation._clear_all / clear_ / new_ / run_
@@ -174,7 +174,88 @@ def t_interpreter_clear(E):
     E.prove(it._basic_events.resets == 1, 'event traps reset')
 
 
+def _strval(E, ds, name, idx=None):
+    r = E.call(ds.view_or_create_variable, name, idx or [])
+    if r.raised:
+        raise Unsupported('lookup of %r raised %r' % (name, r.exc))
+    return str_cells(E, r.value)
+
+
+def t_chain_commons(E, preserve_all, new_size):
+    """DataSegment.preserve_commons around the real Implementation._clear_all, as CHAIN uses them."""
+    impl, ds, it, rnd, fns, prog = _populated(E)
+    vals = ds.values
+    code_start = ds.code_start
+    lit = E.bytes('literal', 2, kind='bytes')
+    prog.literal = lit
+    prog.get_memory_block = lambda addr, n: bytearray(to_cells(lit)[addr - (code_start + 10): addr - (code_start + 10) + n]) \
+        if E.mode != 'symbolic' else SBuf(list(to_cells(lit)[addr - (code_start + 10): addr - (code_start + 10) + n]), 'bytearray')
+    # numeric scalars: A% exists already (symbolic); Y! is not common
+    y = E.new(numbers.Single, E.bytes('y', 4), vals)
+    E.call(ds.scalars.set, b'Y!', y)
+    a0 = snapshot(E.call(ds.scalars.get, b'A%').value)
+    # strings: S$ in string space (common), L$ a literal in the program text (common), Z$ in string space (not common)
+    E.call(ds.set_variable, b'S$', [], new_string(E, vals, E.bytes('s', 3, kind='bytes')))
+    E.call(ds.set_variable, b'Z$', [], new_string(E, vals, b'zzz'))
+    litptr = E.new(strings.String, None, vals)
+    E.call(litptr.from_pointer, 2, code_start + 10)
+    E.call(ds.scalars.set, b'L$', litptr)
+    s0 = _strval(E, ds, b'S$')
+    l0 = _strval(E, ds, b'L$')
+    E.prove(same_bytes(l0, list(to_cells(lit))), 'setup: L$ reads the program literal')
+    # arrays: N%(0..2) symbolic (common), T$(0..1): T$(1) in string space, T$(0) the literal (common); X!(3) exists, not common
+    E.call(ds.arrays.allocate, b'N%', [2])
+    nbuf = E.bytes('n', 6)
+    E.call(ds.arrays.view_full_buffer, b'N%').value[:] = nbuf
+    E.call(ds.arrays.allocate, b'T$', [2])
+    E.call(ds.set_variable, b'T$', [2], new_string(E, vals, E.bytes('t', 2, kind='bytes')))
+    E.call(ds.arrays.set, b'T$', [1], litptr)
+    t1 = _strval(E, ds, b'T$', [2])
+    n0 = list(to_cells(E.call(ds.arrays.view_full_buffer, b'N%').value))
+    base0 = ds.arrays._base
+    cm = E.call(ds.preserve_commons, {b'A%', b'S$', b'L$', b'Q#'}, {b'N%', b'T$'}, preserve_all)
+    E.prove(not cm.raised, 'preserve_commons starts')
+    r = E.call(cm.value.__enter__)
+    E.prove(not r.raised, 'COMMON values are saved')
+    E.call(impl._clear_all, preserve_functions=preserve_all, preserve_base=True, preserve_deftype=False)
+    # the new program has another size: variable memory moves, the old literal is gone
+    prog.size = lambda: new_size
+    prog.get_memory_block = (lambda addr, n: bytearray(b'?' * n)) if E.mode != 'symbolic' else \
+        (lambda addr, n: SBuf([63] * n, 'bytearray'))
+    r = E.call(cm.value.__exit__, None, None, None)
+    E.prove(not r.raised, 'COMMON values are restored')
+    if r.raised:
+        return
+    E.prove(same_bytes(cells(E.call(ds.scalars.get, b'A%').value), a0), 'common numeric scalar keeps its value')
+    E.prove(same_bytes(_strval(E, ds, b'S$'), s0), 'common string scalar keeps its content')
+    E.prove(same_bytes(_strval(E, ds, b'L$'), l0), 'common string that was a literal of the old program keeps its content')
+    E.prove(b'N%' in ds.arrays._dims and same_bytes(list(to_cells(E.call(ds.arrays.view_full_buffer, b'N%').value)), n0),
+            'common numeric array keeps its contents')
+    E.prove(b'T$' in ds.arrays._dims, 'common string array exists')
+    if b'T$' in ds.arrays._dims:
+        E.prove(same_bytes(_strval(E, ds, b'T$', [2]), t1), 'common string array element keeps its content')
+        E.prove(same_bytes(_strval(E, ds, b'T$', [1]), l0), 'common string array element that was a literal keeps its content')
+        E.prove(len(_strval(E, ds, b'T$', [0])) == 0, 'unset string array element stays empty')
+    E.prove(b'Q#' not in ds.scalars._vars, 'a COMMON name that was never assigned is not created')
+    if preserve_all:
+        E.prove(same_bytes(cells(E.call(ds.scalars.get, b'Y!').value), snapshot(y)), 'ALL: every scalar is kept')
+        E.prove(same_bytes(_strval(E, ds, b'Z$'), list(b'zzz')), 'ALL: every string is kept')
+        E.prove(b'X!' in ds.arrays._dims, 'ALL: every array is kept')
+    else:
+        E.prove(sorted(ds.scalars._vars) == [b'A%', b'L$', b'S$'], 'exactly the COMMON scalars are present')
+        E.prove(sorted(ds.arrays._dims) == [b'N%', b'T$'], 'exactly the COMMON arrays are present')
+        live = sum(len(v) for v in ds.strings._strings.values())
+        E.prove(live == 3 + 2 + 2 + 2, 'string space holds the COMMON strings only')
+    E.prove(ds.arrays._base == base0, 'OPTION BASE is preserved with COMMON variables')
+    E.prove(it.for_stack == [] and it.while_stack == [] and it.gosub_stack == [], 'loop and subroutine stacks are cleared')
+    E.prove(it.on_error is None or it.on_error == 0, 'the error trap is cleared')
+    E.prove(ds.deftype == [b'!'] * 26, 'DEFtype is cleared (no MERGE)')
+    E.prove((len(fns._fn_dict) == 0) == (not preserve_all), 'DEF FN survive only with ALL')
+
+
 TASKS = [
+    Task('DataSegment.preserve_commons (CHAIN with COMMON / ALL)', t_chain_commons,
+         cases=[{'preserve_all': a, 'new_size': n} for a in (False, True) for n in (100, 40, 300)]),
     Task('Implementation.clear_', t_clear),
     Task('Implementation.new_', t_new),
     Task('Implementation.run_', t_run),
